@@ -204,9 +204,29 @@ NEEDS.update({
  "q14": "input: the same host port number mapped for TCP and UDP by one pod",
  "q15": "event order + cache ahead: a policy updated and another deleted, the update handled first while the lister already shows both changes",
  "q16": "interleaving: a pod update event handled between the pod listing and the iptables-save of the stale pod-chain cleanup of a full sync",
+ "r01": "fault + multi-step: a FloatingIP creation fails inside AllocateInSubnet, the free entry keeps the pod's key and uid; the pod is re-created under the same name; a resync pass",
+ "r03": "input: a statefulset whose spec.replicas field is unset (= 1) with an immutable pod 0",
+ "r04": "fault + repeat: the bind verb is repeated for a bound pod and the API server answers 409 Conflict",
+ "r07": "start-up: Pool objects exist, the initial list of pools is slow, filter and bind requests arrive right after start",
+ "r08": "config shape + multi-step: two pools share a pod subnet with different node subnets; the pod holds an address of the second; restart or reload; filter and bind again",
+ "r09": "multi-step: an address of a running pod is removed from the configuration (pool kept); the pod-IP sync re-creates its record",
+ "r10": "multi-step: the record of a running pod's address disappears (removed from the configuration and put back), the pod-IP sync re-creates it, the pod is deleted",
+ "r17": "multi-round: a container judged dead in one GC round is started again (or the runtime goes down) and its state files are back in the next round of the same GC instance",
+ "r18": "fault: the list of FloatingIP objects inside ConfigurePool (configuration reload) fails",
+ "r19": "concurrency + state: a policy that still selects a local pod is deleted (its chain is kept for a second sweep) while another sync pass runs",
+ "s02": "interleaving: an immutable deployment holds replicas+1 addresses (scale-down) and the delete events of two of its pods are handled at the same time",
+ "s05": "config shape + restart: an address of the second of two pools sharing one pod subnet is held when the tables are rebuilt from the store",
+ "s06": "input: a candidate node whose status lists more than one InternalIP (dual-stack: the IPv6 one after the IPv4 one)",
+ "s11": "boundary: the number of listed addresses is not a multiple of the page size and a page behind the last one is requested",
+ "s12": "multi-step in one process: a pod with a common key in its args annotation, then a pod whose annotation lacks that key (package-level decode target)",
+ "s13": "config shape + restart: a pool's range lies in the gap between two ranges of an earlier pool of an enclosing or shared subnet; the tables are rebuilt",
+ "s14": "interleaving: the teardown of a pod is overlapped by the set-up of its successor under the same name",
+ "s15": "start-up timing: the first policy arrives while the namespace informer has not synced yet (real lazily started informers)",
+ "s16": "fault or foreign change: the jumps from FORWARD/INPUT/OUTPUT are missing while GLX-INGRESS/GLX-EGRESS exist (failed first sync, external flush)",
+ "s20": "mixed encodings: RemoveIP of a range end given as a 4-byte address, or of an end an earlier RemoveIP has moved",
  "q20": "multi-step: remove an address from the last range of a pool and insert it back (tryMerge at the tail)",
 })
-OTHER = {'q02': ['C03'], 'q05': ['C04'], 'q06': ['C04', 'C01'], 'p07': ['C02'], 'p01': ['C04'], 'n03': ['C04'], 'n01': ['C04'], 'n08': ['C06'], 'm06': ['C09'], 'm02': ['C03'], 'l17': ['C14'], 'l08': ['C09'], 'l10': ['C04'], 'l01': ['C04'], 'k20': ['C09'], 'k02': ['C07'], 'k05': ['C09'], 'j08': ['C05'], 'j01': ['C04'], 'b02': ['C03', 'C05'], 'a04': ['C10'], 'd02': ['C06'], 'd09': ['C05', 'C06'], 'e06': ['C08', 'C05'], 'e01': ['C09', 'C05'], 'e10': ['C04'], 'e04': ['C01'], 'f13': ['C12'], 'd01': ['C04'], 'i02': ['C05'], 'i06': ['C09', 'C05'], 'i04': ['C01'], 'g02b': ['C06'], 'g10': ['C04'], 'g19': ['C06'], 'f16a': ['C15'], 'f15b': ['C16']}
+OTHER = {'s02': ['C03'], 's13': ['C06', 'C09'], 's16': ['C15'], 'r01': ['C05', 'C04'], 'r08': ['C06'], 'r18': ['C09'], 'q02': ['C03'], 'q05': ['C04'], 'q06': ['C04', 'C01'], 'p07': ['C02'], 'p01': ['C04'], 'n03': ['C04'], 'n01': ['C04'], 'n08': ['C06'], 'm06': ['C09'], 'm02': ['C03'], 'l17': ['C14'], 'l08': ['C09'], 'l10': ['C04'], 'l01': ['C04'], 'k20': ['C09'], 'k02': ['C07'], 'k05': ['C09'], 'j08': ['C05'], 'j01': ['C04'], 'b02': ['C03', 'C05'], 'a04': ['C10'], 'd02': ['C06'], 'd09': ['C05', 'C06'], 'e06': ['C08', 'C05'], 'e01': ['C09', 'C05'], 'e10': ['C04'], 'e04': ['C01'], 'f13': ['C12'], 'd01': ['C04'], 'i02': ['C05'], 'i06': ['C09', 'C05'], 'i04': ['C01'], 'g02b': ['C06'], 'g10': ['C04'], 'g19': ['C06'], 'f16a': ['C15'], 'f15b': ['C16']}
 only = sys.argv[1:]
 for sid, (prop, pkg) in SEEDS.items():
     if only and sid not in only: continue
